@@ -8,9 +8,7 @@ import DateutilVerif.Model.TzStr
 
 namespace TzStr
 
-/-- `bool(relativedelta)`: some field is set / non-zero -/
-def Delta.truthy (d : Delta) : Bool :=
-  d.month.isSome || d.day.isSome || d.weekday.isSome || d.leapdays != 0 || d.seconds != 0
+-- `Delta.truthy` (`bool(relativedelta)`) is defined in Model/TzStr.lean
 
 /-- truthiness of an abbreviation argument (`None` and `""` are falsy) -/
 def abbrTruthy : Option String → Bool
